@@ -26,6 +26,8 @@ def check(chk, thorough=False):
     chk.run('C17.g', 'R-FLOW', 'a stale peer message cannot hit a later transfer: transfer IDs come from a counter that only grows and are never reused (= C04.g)', lambda ob: __import__('sa.props.c04', fromlist=['c04g']).c04g(tree, ob), floor=2)
     chk.run('C17.f', 'R-GUARD', 'a message of unknown type is not classified as partial: it reaches the dispatcher, whose default arm rejects it', lambda ob: c17f(tree, ob), floor=2)
     chk.run('C17.e2', 'R-PAIR', 'transfers that are finished or abandoned leave the TX map (with the right key), so later peer messages about them are rejected as unknown (= C18.c)', lambda ob: _c18c(tree, ob), floor=8)
+    chk.run('C17.h', 'R-GUARD', 'a transfer awaits its acknowledgement only once its END segment is out: a premature final XFER_ACK finds nothing to finish (= C18.d)', lambda ob: __import__('sa.props.c18', fromlist=['c18d']).c18d(tree, ob), floor=7)
+    chk.run('C17.i', 'R-FLOW', 'what this side sends is its messages one after the other: the transmit buffer is only appended to (a reply is never put in front of octets already queued) (= C01.b)', lambda ob: __import__('sa.props.c01', fromlist=['c01b']).c01b(tree, ob), floor=7)
     chk.run('C17.e', 'R-FLOW', 'peer-driven handlers change TX state only for the transfer they looked up by the peer id', lambda ob: c17e(tree, ob), floor=3)
 
 
@@ -259,8 +261,35 @@ def peer_enum_lookups(tree, ob):
     n = 0
     for cname in ('Messenger', 'ContactHandler'):
         cls = tree.klass(SESS, cname)
-        for m in [x for x in cls.body if isinstance(x, ast.FunctionDef) and x.name.startswith('recv_')]:
-            params = {a.arg for a in m.args.args[1:]}
+        work = [(x, {a.arg for a in x.args.args[1:]}) for x in cls.body if isinstance(x, ast.FunctionDef) and x.name.startswith('recv_')]
+        # ... and where a handler hands such a value on to another method of the session (the reply echoes the peer's
+        # reason: send_sess_term(reason, True)), the parameter that receives it is a peer value there as well (two steps)
+        meths = {}
+        for cn2 in ('Messenger', 'ContactHandler'):
+            for x in tree.klass(SESS, cn2).body:
+                if isinstance(x, ast.FunctionDef):
+                    meths.setdefault(x.name, x)
+        seen_m = {x.name for (x, _p) in work}
+        for _depth in (1, 2):
+            for (x, tainted) in list(work):
+                for c2 in calls_in(x):
+                    if not (isinstance(c2.func, ast.Attribute) and isinstance(c2.func.value, ast.Name) and c2.func.value.id == 'self' and c2.func.attr in meths):
+                        continue
+                    callee = meths[c2.func.attr]
+                    if callee.name in seen_m:
+                        continue
+                    cparams = [a.arg for a in callee.args.args[1:]]
+                    t2 = set()
+                    for (ix, a) in enumerate(c2.args):
+                        if ix < len(cparams) and {y.id for y in ast.walk(a) if isinstance(y, ast.Name)} & tainted:
+                            t2.add(cparams[ix])
+                    for kw in c2.keywords:
+                        if kw.arg in cparams and {y.id for y in ast.walk(kw.value) if isinstance(y, ast.Name)} & tainted:
+                            t2.add(kw.arg)
+                    if t2:
+                        seen_m.add(callee.name)
+                        work.append((callee, t2))
+        for (m, params) in work:
             for c in calls_in(m):
                 name = dotted(c.func) or ''
                 parts = name.split('.')
@@ -729,6 +758,10 @@ def c17e(tree, ob):
             val = fv.value_at(arg, call)
             ok = src(val) == 'transfer_id' or pm('self._tx_map[transfer_id]', val) is not None or pm('self._tx_map.pop(transfer_id)', val) is not None \
                 or pm('self._tx_map.get(transfer_id)', val) is not None or pm('self._tx_map.pop(transfer_id, $d)', val) is not None
+            if not ok and isinstance(val, ast.Attribute) and val.attr == 'transfer_id':
+                # the id read back from the item that was looked up by the peer's id
+                base = fv.value_at(val.value, call, depth=4)
+                ok = any(pm(pt, base) is not None for pt in ('self._tx_map[transfer_id]', 'self._tx_map.get(transfer_id)', 'self._tx_map.pop(transfer_id)', 'self._tx_map.pop(transfer_id, $d)'))
             if ok:
                 ob.site(SESS, call, '{}: {} acts on the looked-up transfer'.format(hname, src(call)))
             else:
@@ -740,5 +773,7 @@ def c17e(tree, ob):
             if named:
                 ob.site(SESS, call, '{}: interrupts the active transfer only when it is the one named'.format(hname))
             else:
+                # a test of self._tx_tmp that does not name the transfer is positive evidence: the guard is there and is too wide
+                wide = fv.has(call, 'self._tx_tmp is None', False) or fv.has(call, 'self._tx_tmp is not None', True) or fv.has(call, 'self._tx_tmp', True)
                 ob.violate(SESS, fv.qual, src(call) + '  (not under self._tx_tmp.transfer_id == transfer_id)', 'a peer message about one transfer tears down whichever transfer is being sent: that one stops mid-way, '
-                           'never gets its END segment and stays in the transmit map', call)
+                           'never gets its END segment and stays in the transmit map', call, sure=bool(wide))
